@@ -5,6 +5,7 @@ import ast
 import re
 
 from vk import astx, elect, facts
+from vk.report import shape_rule
 from vk.algebra import Normalizer, bool_key, simplify, literals, spec_guard, spec_rat, NotClosedForm
 from vk.loader import AnalysisError
 from rules import c09
@@ -122,6 +123,7 @@ def _tally_rename(fn):
     return rename
 
 
+@shape_rule
 def r3_polarity(ctx):
     prog = ctx.prog
     stv = _stv(prog)
@@ -248,16 +250,17 @@ def r4_surplus_factor(ctx):
               f"SequentialRCV passes transfer=`{d}`; documented: the winner's ballots move on at full weight")
 
 
+@shape_rule
 def r5_default_election(ctx):
     prog = ctx.prog
     f = prog.find_func("STV._run_step")
     pm = astx.parents(f.node)
 
     def rename(e):
+        a = elect.counted_base(e)
+        if isinstance(a, ast.Call) and astx.u(a.func) == "self.get_elected":
+            return "E"
         if isinstance(e, ast.Call) and astx.u(e.func) == "len" and e.args:
-            a = elect.flatten_base(e.args[0])
-            if isinstance(a, ast.Call) and astx.u(a.func) == "self.get_elected":
-                return "E"
             if astx.u(e.args[0]).endswith(".candidates") and astx.u(e.args[0]).split(".")[0] in f.params:
                 return "NC"
         if astx.is_self_attr(e, "m"):
@@ -292,6 +295,7 @@ def r5_default_election(ctx):
               "default election leaves an empty profile and eliminates nobody", str(txt), f"branch assigns {txt}")
 
 
+@shape_rule
 def r6_elimination(ctx):
     prog = ctx.prog
     f = prog.find_func("STV._run_step")
@@ -371,6 +375,7 @@ def r7_recorded_tallies(ctx):
         ctx.vanished("STV._run_step store block")
 
 
+@shape_rule
 def r8_transfer_wiring(ctx):
     prog = ctx.prog
     for name in ("STV._simultaneous_elect_step", "STV._single_elect_step"):
